@@ -244,14 +244,14 @@ def make_programs(pid, tier, rng):
                     progs += obj_programs(pid, kind, par, name, S, "prefix", lambda h, its: G.sec_prefix(h, S, its, rng, lim))
                 elif pid == "C05":
                     if sc:
-                        progs += obj_programs(pid, kind, par, name, S, "substr", lambda h, its: G.sec_substr(h, S, its, rng, lim, minlen=2 if kind == "XBW" else 1))
+                        progs += obj_programs(pid, kind, par, name, S, "substr", lambda h, its: G.sec_substr(h, S, its, rng, lim))
                 elif pid == "C13":
                     def fn(h, its, kind=kind, par=par, S=S, sc=sc):
                         o = G.sec_table(h, S, its) if kind != "XBW" else []
                         if kind in G.PREFIX:
                             o += G.sec_prefix(h, S, its, rng, 6)
                         if sc:
-                            o += G.sec_substr(h, S, its, rng, 6, minlen=2 if kind == "XBW" else 1)
+                            o += G.sec_substr(h, S, its, rng, 6)
                         return o
                     progs += obj_programs(pid, kind, par, name, S, "iters", fn)
                 elif pid == "C15":
@@ -276,7 +276,7 @@ def make_programs(pid, tier, rng):
                         if kind in G.PREFIX:
                             o += G.sec_prefix(h, S, its, rng, 5)
                         if sc:
-                            o += G.sec_substr(h, S, its, rng, 5, minlen=2 if kind == "XBW" else 1)
+                            o += G.sec_substr(h, S, its, rng, 5)
                         if kind in G.RANK:
                             o += G.sec_rank(h, S, rng, 6)
                         if kind != "XBW":
@@ -302,12 +302,6 @@ def make_programs(pid, tier, rng):
         # histories generated by TLC from the specification itself (spec -> impl direction): random interleavings of
         # builds, queries, iterator steps, saves, loads through every loader / option (also of foreign images), destroys
         progs += tlc_programs(pid, 1500 if thorough else 250, vlib.seed() + int(pid[1:]))
-    if pid == "C05":
-        # recorded finding F-XBW-SUBSTR-1BYTE-HANG: one probe; the batteries query XBW with patterns of 2+ bytes so that
-        # the rest of each program is still executed and validated
-        p = G.Prog("C05|XBW|-|probe1|substr|loaded")
-        p.lines = [G.build_line(1, "XBW", G.P(), [b"a", b"ab", b"b"]), "S 1 1", "CAT 1 1", G.load_line("LG", "XBW", 1, 2, 1), "LS 2 1 61", "ID 1 5", "CI 1", "D 2", "D 1"]
-        progs.append(p)
     # one probe per kind that is only usable after load (recorded finding): queries on the built object
     if pid in ("C01", "C07"):
         for kind in G.SAVE_ONLY_WHEN_BUILT:
@@ -351,7 +345,7 @@ def alias_programs(focus, kind, par, name, S, rng):
         if kind in G.PREFIX:
             o += G.sec_prefix(h, S, its, rng, 2)
         if G.substr_capable(kind, par):
-            o += G.sec_substr(h, S, its, rng, 2, minlen=2 if kind == "XBW" else 1)
+            o += G.sec_substr(h, S, its, rng, 2)
         return o
     if kind not in G.SAVE_ONLY_WHEN_BUILT:
         p = G.Prog("%s|%s|%s|%s|destroycopy|built" % (focus, kind, pt, name))
@@ -401,8 +395,7 @@ def c14_programs(kind, par, name, S, rng, thorough):
                     open_its.append((it, p.lines[-1][:2]))
                 elif c < 0.72 and G.substr_capable(kind, par):
                     it = its.new()
-                    pats = [x for x in G.substr_patterns(S, rng, 8) if len(x) >= (2 if kind == "XBW" else 1)] or [S[0] + b"a"]
-                    pat = rng.choice(pats)
+                    pat = rng.choice(G.substr_patterns(S, rng, 8))
                     p.lines.append(("LS %d %d %s" if rng.random() < 0.5 else "ES %d %d %s") % (h, it, G.hx(pat)))
                     open_its.append((it, p.lines[-1][:2]))
                 elif c < 0.78 and kind != "XBW":
@@ -689,7 +682,7 @@ def design_run(pid, tier):
         # mechanism model of the XBW kind: double-rooted trie, node order, alpha / last / A arrays, subPathSearch,
         # getChildren / getParent / idToStr, breadth-first ID iterators; Emit prints the arrays per member set
         cfgx = os.path.join(vlib.CACHE, "cfg", "xbwspec_%s_%s.cfg" % (pid, tier))
-        open(cfgx, "w").write("SPECIFICATION Spec\nCONSTANTS Sigma = {2, 3}\nMaxLen = 3\nMaxN = %d\nEmit = TRUE\nINVARIANT Inv\nINVARIANT EmitOK\nCHECK_DEADLOCK FALSE\n" % (3 if tier == "thorough" else 2))
+        open(cfgx, "w").write("SPECIFICATION Spec\nCONSTANTS Sigma = {2, 3}\nMaxLen = 3\nMaxN = %d\nEmit = TRUE\nFixed = TRUE\nINVARIANT Inv\nINVARIANT EmitOK\nCHECK_DEADLOCK FALSE\n" % (3 if tier == "thorough" else 2))
         x = vlib.tlc("XBWSpec", cfgx, workers=8, timeout=3000, java_opts=["-Xmx8g"])
         if x.rc != 0:
             raise RuntimeError("XBWSpec.tla failed: rc=%s violated=%s" % (x.rc, x.violated))
